@@ -116,6 +116,8 @@ def use_repo():
         logger.remove()
     except Exception:
         pass
+    import logging
+    logging.disable(logging.CRITICAL)     # apkInspector logs through the stdlib; never part of a verdict
     import androguard  # noqa
     f = os.path.abspath(androguard.__file__)
     if not f.startswith(root + os.sep):
